@@ -34,8 +34,9 @@ try:
             "violations": [l for l in lines if l.startswith("VIOLATION")],
             "undecided": [l[:300] for l in lines if l.startswith("UNDECIDED")],
             "failed_harnesses": [l.split()[1] for l in lines if l.startswith("[") and " FAILED " in l],
+            "new_failures": [os.path.basename(l.split("replay=")[1]).rsplit(".", 2)[0] for l in lines if l.startswith("VIOLATION") and "replay=" in l],
         })
-        print(p, "exit", r.returncode, res["checks"][-1]["failed_harnesses"], flush=True)
+        print(p, "exit", r.returncode, res["checks"][-1]["new_failures"], [u[:120] for u in res["checks"][-1]["undecided"]][:3], flush=True)
 finally:
     subprocess.call(["git", "-C", R, "checkout", "-q", "--", "."])
 res["caught"] = any(c["exit"] == 1 for c in res["checks"])
